@@ -483,7 +483,10 @@ double cmb_random_std_gamma(const double shape)
         } while (v <= 0.0);
 
         double w = v * v * v;
-        double u = cmb_random();
+
+        /* Uniform on (0, 1), log(0) would raise a floating point exception */
+        double u;
+        while ((u = cmb_random()) == 0.0) {}
         if ((u < 1.0 - 0.331 * (x * x) * (x * x))
             || (log(u) < (0.5 * x * x) + (d * (1.0 - w + log(w))))) {
             const double ret = d * w;
@@ -555,6 +558,12 @@ int cmb_random_flip(void)
 unsigned cmb_random_geometric(const double p)
 {
     cmb_assert((p > 0.0) && (p <= 1.0));
+
+    if (p == 1.0) {
+        /* Every trial succeeds. Do not evaluate log(0), it raises a floating
+         * point exception, which is trapped inside cimba_run_experiment() */
+        return 1u;
+    }
 
     static CMB_THREAD_LOCAL double prev = 0.0;
     static CMB_THREAD_LOCAL double denom = 0.0;
